@@ -65,15 +65,28 @@ def check_edit(case):
     """analyse, edit the same object in place, analyse again"""
     from mc import edit_layer as el
 
+    from synkit.CRN.Petri.analyzer import PetriAnalyzer
+
     net = ec.parse_net(case["net"])
     H = ec.build_hypergraph(net)
     judge(H, net)
+    an = PetriAnalyzer(H).compute_siphons_traps()  # an analyser object that lives across the edit
     net2 = el.apply_edit(H, net, case["edit"])
     if not net2:
         return Outcome(skipped="network_became_empty")
     out = judge(H, net2)
     for f in out.fails:
         f.tag = "after_edit_" + f.tag
+    if not out.fails:
+        names = ec.SPECIES
+        used = sorted({names[i] for l, r in net2 for i in range(len(l)) if l[i] or r[i]})
+        rx = [({names[i] for i, c in enumerate(l) if c}, {names[i] for i, c in enumerate(r) if c}) for l, r in net2]
+        subsets = [frozenset(c) for k in range(1, len(used) + 1) for c in itertools.combinations(used, k)]
+        sip = minimal({S for S in subsets if all((not (p & S)) or (r & S) for r, p in rx)})
+        trp = minimal({S for S in subsets if all((not (r & S)) or (p & S) for r, p in rx)})
+        an.compute_siphons_traps()
+        if {frozenset(x) for x in an.siphons} != sip or {frozenset(x) for x in an.traps} != trp:
+            out.fails.append(Fail("after_edit_analyzer_reuse", f"the analyser created before the edit, asked again: siphons={an.siphons} traps={an.traps}", f"siphons={sorted(map(sorted, sip))} traps={sorted(map(sorted, trp))} (the network as it is now)"))
     return out
 
 
